@@ -43,7 +43,8 @@ Definition spec_step (limit : N) (w : sworld) (e : event) : sworld * soutput :=
                 if bytes_eqb d S_org_freedesktop_DBus then [] else
                 match owner_of (sw_names w) d with
                 | None => []
-                | Some a => a :: spec_recipients (sw_names w) (sw_bus w) (Some c) (Some a) m
+                | Some a => if negb (valid_type (m_type m)) then []      (* messages of unknown type are not passed on *)
+                            else a :: spec_recipients (sw_names w) (sw_bus w) (Some c) (Some a) m
                 end
             end)
   | EvDisconnect c =>
